@@ -44,6 +44,8 @@ def run(ck):
     sv = repo.find_function(SOLVER)
     ck.analysed_function(df)
     ck.analysed_function(sv)
+    from ..purity import purity
+    purity(ck, repo, [df, sv])
     check_df(ck, repo, df)
     check_solver(ck, repo, df, sv)
     ck.exhaustive = True
